@@ -268,6 +268,14 @@ class Run:
         try:
             if sc["stop"] == "time":
                 from .scenario import tv
+                for Ti in sc["splits"]:
+                    # the run is made in several calls: each return is logged as a pseudo-event `pause`
+                    Q.simulate_until_max_time(tv(sc, Ti))
+                    post = project(R)
+                    post["steps"] = R.take_steps()
+                    post["recs"] = new_records(R)
+                    post["ev"] = {"kind": "pause", "node": 0, "cls": 0, "date": Fraction(Ti) * unit_of(sc)}
+                    self.events.append(post)
                 Q.simulate_until_max_time(tv(sc, sc["T"]))
             elif sc["stop"] == "deadlock":
                 Q.simulate_until_deadlock()
